@@ -293,6 +293,17 @@ func (r *c14Run) encodeValue(k *c14Kind, m c14Msg, coqCase bool, tag string) []b
 	if coqCase {
 		c.addCase(fmt.Sprintf("K%sEnc %s %s %s", k.name, orig, cN(uint64(size)), cBytes(b)), fmt.Sprintf("%s Marshal %s", k.name, orig))
 	}
+	// the encoding is a function of the CURRENT value: update the amount of the very same object in place (as every balance update
+	// does) and encode it again - on a copy, so that the caller's value is untouched
+	if t, ok := k.clone(m).(*esdt.ESDigitalToken); ok && t.Value != nil {
+		if _, _, cl0, _ := c14Marshal(t); cl0 == "value" {
+			t.Value.Add(t.Value, big.NewInt(5))
+			b5, size5, cl5, _ := c14Marshal(t)
+			if ref := k.ref(t); cl5 != "value" || !bytes.Equal(b5, ref) || size5 != len(ref) {
+				c.fail("monitor", "marshal-stale-after-update-"+k.name, fmt.Sprintf("%s.Marshal after the amount of the same object was updated in place (+5) gives %x (size %d), the documented format of the updated value is %x", k.name, b5, size5, ref), rp)
+			}
+		}
+	}
 	return b
 }
 
@@ -520,6 +531,18 @@ func (r *c14Run) casterEncode(v *big.Int, coqCase bool, tag string) {
 	cl2, v2, _ := c14CasterDecode(out)
 	if cl2 != "value" || !cst.Equal(v, v2) || (v == nil) != (v2 == nil) {
 		c.fail("monitor", "caster-roundtrip", fmt.Sprintf("Unmarshal(Marshal(%s)) = %s %v", desc, cl2, v2), rp)
+	}
+	if v != nil { // Size / MarshalTo follow an in-place update of the same object
+		w := new(big.Int).Set(v)
+		_ = cst.Size(w)
+		_, _, _, _ = c14CasterTo(w, cst.Size(w))
+		w.Add(w, big.NewInt(5))
+		w.Lsh(w, 9)
+		sz := cst.Size(w)
+		cl6, n6, out6, _ := c14CasterTo(w, sz)
+		if ref := c14RefAmount(w); cl6 != "value" || n6 != len(ref) || !bytes.Equal(out6, ref) {
+			c.fail("monitor", "caster-stale-after-update", fmt.Sprintf("after %s was encoded, updated in place and encoded again: Size %d, MarshalTo %s %x, documented format of the updated value %x", desc, sz, cl6, out6, ref), rp)
+		}
 	}
 	if coqCase {
 		c.addCase(fmt.Sprintf("KCasterEnc %s %s %s", c14OptZ(v), cN(uint64(size)), cBytes(out)), "BigIntCaster Size/MarshalTo "+desc)
